@@ -79,7 +79,10 @@ skipp(__skipspec_t ss, struct dt_dt_s dt)
 	if (ss == 0) {
 		return 0;
 	}
-	dow = dt_get_wday(dt.d);
+	/* the day of the month may be past the end of the month, we keep it
+	 * like that so the next element comes out right, the weekday in
+	 * question is the one of the date that is going to be printed */
+	dow = dt_get_wday(dt_dfixup(dt.d));
 	/* just check if the bit in the bitset `skip' is set */
 	return (ss & (1 << dow)) != 0;
 }
@@ -367,14 +370,14 @@ static struct dt_dt_s
 __seq_this(struct dt_dt_s now, const struct dseq_clo_s *clo)
 {
 /* if NOW is on a skip date, find the next date according to ALTITE, then ITE */
-	if (!skipp(clo->ss, now) && __in_range_p(now, clo)) {
+	if (!skipp(clo->ss, now) && __in_range_p(dt_fixup(now), clo)) {
 		return now;
 	} else if (clo->naltite > 0) {
 		return __seq_altnext(now, clo);
 	} else if (clo->nite) {
 		/* advance until it goes out of range */
 		for (;
-		     skipp(clo->ss, now) && __in_range_p(now, clo);
+		     skipp(clo->ss, now) && __in_range_p(dt_fixup(now), clo);
 		     now = date_add(now, clo->ite, clo->nite));
 	} else {
 		/* good question */
